@@ -29,7 +29,11 @@ Permute(a, perm) ==
 
 \* --- constructor paths: every one must realise the same abstract network
 Paths == {"dense_list", "ndarray", "csr", "csc", "coo", "lil", "dok", "edge_list", "edge_list_n",
-          "igraph", "copy", "undirected_copy", "graphml", "graphmlz", "pickle", "gml"}
+          "igraph", "copy", "undirected_copy", "graphml", "graphmlz", "pickle", "gml",
+          \* the same constructions from edges listed in another order / with swapped endpoints, and copies
+          \* of networks that did not come from an adjacency matrix
+          "igraph_shuffled", "igraph_shuffled.copy", "edge_list_shuffled", "copy.copy", "graphml.copy",
+          "pickle.copy", "edge_list_n.copy"}
 \* summary attributes as functions of the abstract network (w scaled by wden)
 NLinksDir(a) == Sum(LAMBDA i : Sum(LAMBDA j : a.A[i][j], 1..Len(a.A)), 1..Len(a.A))
 NLinks(a) == IF a.dir = 1 THEN NLinksDir(a) ELSE NLinksDir(a) \div 2
